@@ -65,7 +65,7 @@ func TestC13(t *testing.T) {
 		o.Reset = []float64{0.3, 10}[(c.Idx/3)%2]
 		o.Limit = []string{"16", "default"}[(c.Idx/6)%2]
 		high := e.Thorough() && (c.Idx/12)%2 == 1
-		nb, n := e.Pick(4, 10), 22000
+		nb, n := e.Pick(4, 10), 21000 // three batches reach 63,000 entries (96 % of the limit), the fourth crosses 65,535
 		if high {
 			n, nb = 60000, 10 // pool grows by n/8 per batch; a batch must stay <= 65,535 items (domain)
 			o.Reset = []float64{0.3, 1}[(c.Idx/3)%2]
